@@ -1025,7 +1025,7 @@ func c04ForgedStage(c *engine.Ctx, configs [][4]int, formats []c04Case, bound in
 			mine = append(mine, jobs[i])
 		}
 		in, _ := json.Marshal(mine)
-		outPath := fmt.Sprintf("/verif/.build/c04w-%d-%d.json", os.Getpid(), w)
+		outPath := fmt.Sprintf("%s/.build/c04w-%d-%d.json", Home(), os.Getpid(), w)
 		cmd := exec.Command(os.Args[0], "c04forged", string(in), outPath)
 		var eb bytes.Buffer
 		cmd.Stderr = &eb
